@@ -48,7 +48,12 @@ impl Monitor for Mon {
             return None;
         }
         let keys = w.dut.session_keys();
-        if keys != self.cur_keys {
+        // A join attempt in which the reference network saw an authentic JoinAccept delivered starts a new session
+        // even if its keys coincide with the old ones (two DevNonces alike - an RNG streak left over from an earlier
+        // operation - and the recorded JoinAccept sent again): "within a session" is delimited by joins, not by keys.
+        let joined_anew = matches!(rec.op, Op::Join(_))
+            && w.env.borrow().delivered[rec.del_lo..rec.del_hi].iter().any(|d| matches!(d.verdict, crate::world::Verdict::JoinAccept(_)));
+        if keys != self.cur_keys || joined_anew {
             self.cur_keys = keys;
             self.accepted.clear();
             self.expect_devstatus = None;
